@@ -12,7 +12,10 @@ TECHNIQUE = ("ABSINT: interval abstract interpretation of checked-mode MIR (over
              "at the type invariants; produced values are checked against the same invariants (inductive)")
 
 EXCLUDE = (r"fmt$|Visitor|serde|Deserialize|Serialize|::hash$|ops::Index(Mut)?<usize>|backend::serial::\w+::field::|"
-           r"group::ff::Field>::(sqrt|sqrt_ratio|random)$|::random$|Group>::random$|PrimeFieldBits")
+           r"group::ff::Field>::(sqrt|sqrt_ratio|random)$|::random$|Group>::random$|PrimeFieldBits|"
+           # documented as non-inductive ("it is not safe to repeatedly negate a point": b < 1.0 -> needs b < 0.999): analysed only in the
+           # contexts that reach it (LookupTable::select / Sub on fresh table entries), never as a root over the whole invariant
+           r"vector::(avx2|ifma)::edwards::CachedPoint as core::ops::Neg>::neg$|vector::(avx2|ifma)::edwards::ExtendedPoint as core::ops::Sub<&.*CachedPoint>>::sub$")
 # reviewed residuals: obligations the interval domain cannot discharge, each with its reason (keys have no line numbers)
 RESIDUALS = [
     (r"precomputed_straus::.*optional_mixed_multiscalar_mul$", r"^call:panic$", r"sp >= static_nafs\.len\(\)|^adt\{\}, &\(\(tuple\{",
@@ -31,8 +34,8 @@ RESIDUALS = [
      "A4: debug_assert_eq!(x & 1, 1): non-zero NAF digits are odd (established by the parity test in non_adjacent_form; parity of array contents is outside the interval domain)"),
 ]
 
-QUICK = [("serial64", "u64"), ("serial32", "u32")]
-THOROUGH = QUICK + [("notables-serial64", "u64")]
+QUICK = [("simd", "u64"), ("serial32", "u32")]
+THOROUGH = QUICK + [("serial64", "u64"), ("notables-serial64", "u64")]
 
 
 def run(tier, R):
@@ -57,6 +60,8 @@ def check_cfg(F, R, cfg, backend):
     t0 = time.time()
     D = Driver(F, backend)
     roots = D.root_candidates(r"^curve25519_dalek::", EXCLUDE)
+    # operations on the vector backend's point types are analysed as roots too, with the documented invariants of ExtendedPoint
+    # (b < 0.007) and CachedPoint (b < 1.0); bare FieldElement2625x4 parameters have no type invariant and are reached in context
     for f in sorted(roots, key=lambda f: f["key"]):
         D.run_root(f)
     R.floor("C11.roots", I("exported functions analysed as roots"), len(D.roots_run), 250)
